@@ -925,6 +925,12 @@ func (o *oracleCtx) c05() {
 					hashes[pth] = hs
 				}
 				bodies[pth] = p.resp.body
+				for oi, ov := range p.overlap {
+					if ov.status != 200 || !bytes.Equal(ov.body, p.resp.body) {
+						o.fail("C05", vn+":overlapping-fetch-differs", "%s fetched by two overlapping requests: request %d of the two got status %d and %d bytes, a request on its own %d bytes (write %d, disk=%v)",
+							kindName(key.kind), oi, ov.status, len(ov.body), len(p.resp.body), rot.k, h.Disk)
+					}
+				}
 			} else {
 				if ok && key.kind == 4 && retainedPart(rot, key) {
 					continue // its parent segment is still in the window (parts are listed only under the last two)
